@@ -46,6 +46,7 @@ class Ctx:
         self.per = {}
         self.notrun = 0
         self.rebuilt = {"ugetp": {}, "ugetq": {}}
+        self.expect = {}        # sweep line -> what RFC 7252 prescribes, precomputed (fast path)
 
     def bad(self, what, ln, mo, co, extra="", no_input=False, tag=None):
         self.nbad += 1
@@ -81,6 +82,14 @@ def check_case(cx, ln, mo, co, spec):
                ln, mo, co, no_input=True)
         return
     # ---- oracles on the implementation's output alone
+    exp = cx.expect.get(ln)
+    if exp is not None:
+        if (co if not exp.startswith("reject") else ("reject" if re.match(r"rc=-\d+$", co) else co)) != exp:
+            cx.bad("port handling differs from RFC 7252 6.4 / section 6 (default ports, 0..65535, "
+                   "Uri-Port unless default)", ln, mo, co, "expected: %s\n" % exp)
+        elif mo != co:
+            cx.bad("implementation differs from the proved model", ln, mo, co, no_input=True)
+        return
     if cmd in ("upath", "uquery"):
         buflen = int(t[1])
         vals = G.parse_split_out(co)
@@ -200,10 +209,13 @@ def check_case(cx, ln, mo, co, spec):
         cx.bad("implementation differs from the proved model", ln, mo, co, no_input=True)
 
 
-def spec_lines(lines):
+def spec_lines(lines, skip=()):
     """for every path/query case the line that asks the extracted specification"""
     out = []
     for ln in lines:
+        if ln in skip:
+            out.append("")
+            continue
         t = ln.split()
         if t[0] in ("upath", "upol"):
             out.append("spec_path " + t[-1])
@@ -220,7 +232,7 @@ def spec_lines(lines):
 def run_batch(cx, model, drv, lines, variant):
     run = cx.run
     om, oc, crashes = tie.run_both(model, drv, lines, c_env={"ASAN_OPTIONS": "detect_leaks=0"})
-    sp, _ = vlib.run_lines_robust(model, spec_lines(lines))
+    sp, _ = vlib.run_lines_robust(model, spec_lines(lines, cx.expect))
     for i, ln in enumerate(lines):
         check_case(cx, ln, om[i], oc[i], sp[i])
     for idx, rc, err in crashes[:3]:
@@ -299,7 +311,7 @@ def main(run):
     run.cov["leaf_sweep"] = {"cases": len(sweep), "exhaustive": True,
                              "also_exhaustive": "all 256 byte values through the escape tables; '%' + all "
                              "65536 byte pairs through coap_split_path and coap_path_into_optlist; port texts "
-                             "0..66000 through coap_split_uri; all 65536 ports x 2 (quick) / 6 (thorough) schemes through "
+                             "0..66000 through coap_split_uri; all 65536 ports x 6 schemes through "
                              "coap_uri_into_optlist; 20 scheme names x proxy flag x 6 tails",
                              "exhaustive_over": "all strings over 'a./%%2eE?#&:[' of length <= %d as "
                              "path and query (buffer 64), <= %d through the optlist functions and as "
@@ -320,14 +332,20 @@ def main(run):
             base_lines.append("upol 1 11 %s" % ("61" * k))
     # Uri-Port decision: every port x every scheme coap_split_uri accepts (finite leaf domain)
     if caps == "11111":
-        for sch in ((b"coap", b"coaps+ws") if quick else
-                    (b"coap", b"coaps", b"coap+tcp", b"coaps+tcp", b"coap+ws", b"coaps+ws")):
-            pre = sch + b"://h:"
+        for sch in (b"coap", b"coaps", b"coap+tcp", b"coaps+tcp", b"coap+ws", b"coaps+ws"):
+            pre = "uinto 1 - " + G.tok(sch + b"://h:")
+            dflt = G.SCHEMES[sch][1]
             for port in range(65536):
-                base_lines.append("uinto 1 - " + G.tok(pre + str(port).encode()))
+                ln = pre + str(port).encode().hex()
+                base_lines.append(ln)
+                v = "-" if port == 0 else ("%02x" % port if port < 256 else "%04x" % port)
+                cx.expect[ln] = "rc=0 into=1 chain=" + ("-" if port == dflt else "7:" + v)
     # port text -> value: every number 0..66000 (finite leaf domain of the port scanner)
+    pre = "uspl 0 %s %s" % (caps, G.tok(b"coap://h:"))
     for port in range(66001):
-        base_lines.append("uspl 0 %s %s" % (caps, G.tok(b"coap://h:" + str(port).encode())))
+        ln = pre + str(port).encode().hex()
+        base_lines.append(ln)
+        cx.expect[ln] = ("rc=0 sch=0 host=68 port=%d path=- query=-" % port) if port < 65536 else "reject"
     # escape decoding: '%' followed by every pair of byte values, through all three decoders
     for x in range(256):
         for y in range(256):
